@@ -1,7 +1,7 @@
 """C11 — configuration of ./check C11 (PROP) and the MANIFEST claim (CLAIM)."""
 PROP = dict(
-    modules=["CG.Props.C11"],
-    required_theorems=["C11_areader_inv", "C11_read_all_or_nothing", "C11_stream_transparent",
+    modules=["CG.Props.C11", "CG.Props.Compose"],
+    required_theorems=["Compose_header_models_agree", "Compose_receive_real_messages", "Compose_receive_real_messages_prefix", "Compose_serTx_eq_wire", "Compose_varint_encoders_agree", "C11_areader_inv", "C11_read_all_or_nothing", "C11_stream_transparent",
                        "C11_refines_contiguous", "C11_terminates", "C11_independent_any_stream",
                        "C11_prefix", "C11_complete", "C11_eof_is_disconnect", "C11_fragmentation_independent",
                        "C11_stops_at_first_non_message", "C11_encoded_frames_valid", "C11_tables_wf"],
